@@ -14,6 +14,7 @@ def lm_plain(lm):
 
 
 _FRESH = {'n': 0}
+_LAST = {}
 
 
 def fresh_scores(k, G, flag):
@@ -101,6 +102,7 @@ def transition(r, k, acc0, flag, path, rev=False):
     if ref[u][j] != mx:
         r.v(sig + 'removed-arc-does-not-have-maximum-score', 'step', case, mx, ref[u][j])
     r.out.add(mx)
+    _LAST['case'] = {'k': k, 'arcs_before': RP.garcs(U.rows(acc0))[:40], 'flags': list(flag), 'successor_lists_reversed': rev, 'removed_arc': [former, latter], 'its_score': ref[u][j], 'maximum_score': mx}
     # both views describe the same graph
     G2 = U.rows(acc2)
     exp_lm = {v: [w for w in G2[v] if w >= 0] for v in range(n) if any(w >= 0 for w in G2[v])}
@@ -182,8 +184,7 @@ def _w(chunk):
         ns = explore(r, k, G, mc, cap)
         r.ctr['initial_graphs_k%d' % k] += 1
     k, G, mc, cap = chunk[-1]
-    r.sample({'k': k, 'initial_arcs': RP.garcs(G)[:40], 'flag_changes_at_most': mc,
-              'what': 'all remove_nasty_arc sequences until the first raising call'}, 1)
+    r.sample(_LAST.get('case') or {'k': k, 'initial_arcs': RP.garcs(G)[:40]}, 1)
     return r
 
 
